@@ -378,6 +378,58 @@ def oracle_accept(c, stats):
     return []
 
 
+# ------------------------------------------------------------------ companion tools on damaged result files
+
+def tools_case_strategy():
+    from hypothesis import strategies as st
+
+    @st.composite
+    def tools_case(draw):
+        return {"file": draw(st.integers(0, 10 ** 6)), "kind": draw(st.sampled_from(["truncate", "tag", "byte", "text", "dup", "intact"])),
+                "pos": draw(st.integers(0, 10 ** 6)), "val": draw(st.integers(0, 255)),
+                "tool": draw(st.sampled_from(["compare-xyz", "gama-local-deformation"])), "second_intact": draw(st.booleans())}
+    return tools_case()
+
+
+def oracle_tools(c, stats):
+    """compare-xyz and gama-local-deformation on a damaged adjustment-results file: a diagnostic and an exit status, never an
+    abort (uncaught exception), a signal or a sanitizer report"""
+    files = [f for f in adjres_files() if f.endswith(".xml")]
+    if not files:
+        return []
+    f = files[c["file"] % len(files)]
+    body = open(f, "rb").read()
+    if b"gama-local-adjustment" not in body:
+        return []
+    k = c["pos"] % max(len(body), 1)
+    if c["kind"] == "truncate":
+        bad = body[:k]
+    elif c["kind"] == "tag":
+        j = body.find(b"<", k)
+        bad = body if j < 0 else body[:j] + b"<bogus>1</bogus>" + body[j:]
+    elif c["kind"] == "byte":
+        bad = body[:k] + bytes([c["val"]]) + body[k + 1:]
+    elif c["kind"] == "text":
+        j = body.find(b">", k)
+        bad = body if j < 0 else body[:j + 1] + b"x1e999" + body[j + 1:]
+    elif c["kind"] == "dup":
+        j = body.find(b"<point>", k)
+        e = body.find(b"</point>", j)
+        bad = body if j < 0 or e < 0 else body[:e + 8] + body[j:e + 8] + body[e + 8:]
+    else:
+        bad = body
+    stats.label("tools." + c["kind"], "tools." + c["tool"])
+    with netrun.TmpDir() as d:
+        pa, pb = os.path.join(d, "a.xml"), os.path.join(d, "b.xml")
+        open(pa, "wb").write(bad)
+        open(pb, "wb").write(body if c["second_intact"] else bad)
+        rc, out, err, crash = drv.run([build.exe(c["tool"]), pa, pb], timeout=60, cwd=d)
+    if crash is not None:
+        return ["tools.%s.%s: %s on a damaged results file (%s of %s at %d): %s" %
+                (c["tool"], crash["kind"].split(":")[0], crash["kind"], c["kind"], os.path.basename(f), k, crash["frame"])]
+    return []
+
+
 PARTS = [
     Part("seeds", custom=run_seeds, n={"quick": 1, "thorough": 1}),
     Part("events", custom=run_events, n={"quick": 1, "thorough": 1}, workers=NCPU),
@@ -389,5 +441,7 @@ PARTS = [
     Part("fuzz_gkf", custom=run_fuzz_gkf, n={"quick": 1, "thorough": 1}),
     Part("fuzz_data", custom=run_fuzz_data, n={"quick": 1, "thorough": 1}),
     Part("fuzz_adjres", custom=run_fuzz_adjres, n={"quick": 1, "thorough": 1}),
+    Part("tools", strategy=tools_case_strategy, oracle=oracle_tools, n={"quick": 1500, "thorough": 15000},
+         nontrivial=lambda c: c["kind"] != "intact"),
 ]
 PARTS_BY_NAME = {p.name: p for p in PARTS}
